@@ -79,12 +79,13 @@ func (w *watcher) reobserve() []J {
 }
 
 type runOpts struct {
-	budget int
-	trees  bool
-	watch  bool
-	api    bool
-	quiet  bool
-	nopre  bool
+	budget  int
+	trees   bool
+	watch   bool
+	api     bool
+	quiet   bool
+	nopre   bool
+	topOnly bool // record the events of top-level calls only (long inputs)
 }
 
 type runOut struct {
@@ -147,7 +148,7 @@ func getBuilt(c *caseT, preflight bool) *builtG {
 func runOnce(c *caseT, o runOpts, preflight bool) (out runOut) {
 	b := getBuilt(c, preflight)
 	t, ps := b.t, b.ps
-	t.budget, t.trees, t.quiet = o.budget, o.trees, o.quiet
+	t.budget, t.trees, t.quiet, t.topOnly = o.budget, o.trees, o.quiet, o.topOnly
 	t.ev, t.stack, t.over, t.bound, t.count, t.watch = nil, nil, false, false, 0, nil
 	t.attempts, t.nfails, t.bodyRuns = map[[2]int]bool{}, map[[2]int]bool{}, map[[2]int]int{}
 	if o.watch {
@@ -321,7 +322,7 @@ func parseReplay(a args) {
 		}
 		c.C06 = productiveG(c.G) && !hasTrims(c.G)
 		cases++
-		o := runCase(&c, runOpts{budget: budget, api: true, watch: a.num("watch", 0) == 1, trees: a.num("trees", 0) == 1})
+		o := runCase(&c, runOpts{budget: budget, api: true, watch: a.num("watch", 0) == 1, trees: a.num("trees", 0) == 1, topOnly: a.num("toponly", 0) == 1})
 		if o.over {
 			skipped++
 			return
